@@ -176,6 +176,7 @@ type fsInstance struct {
 	dir     string
 	pods    map[string]*api.PodSandbox
 	ctrs    map[string]*api.Container
+	cfgRaw  json.RawMessage // the configuration last applied successfully
 }
 
 func mkPod(p *fsPod) *api.PodSandbox {
@@ -369,6 +370,7 @@ func newInstance(t *testing.T, dir, policyName string, machine string, config js
 	inst.stub = &fakeStub{}
 	m.nri.stub = inst.stub
 	inst.m = m
+	inst.cfgRaw = config
 	return inst, nil
 }
 
@@ -554,6 +556,9 @@ func (inst *fsInstance) exec(ev *fsEvent, out *fsOut) {
 		cfg, err = parseConfig(inst.policy, ev.Config)
 		if err == nil {
 			err = inst.m.reconfigure(cfg)
+			if err == nil {
+				inst.cfgRaw = ev.Config
+			}
 		} else {
 			err = fmt.Errorf("unparsable config: %w", err)
 		}
@@ -591,7 +596,7 @@ func runScript(t *testing.T, sc *fsScript, w *bufio.Writer) {
 		out := &fsOut{Script: sc.Name, Seq: i, Op: ev.Op, Tag: ev.Tag}
 		if ev.Op == "Restart" {
 			// new instance on the same state directory (= plugin restart)
-			cfg := sc.Config
+			cfg := inst.cfgRaw // a restarted plugin gets the configuration that was in force
 			if len(ev.Config) > 0 {
 				cfg = ev.Config
 			}
